@@ -313,7 +313,10 @@ func (tnc *TNC) runControlLoop() error {
 				}
 
 				if err != nil {
-					panic(err) // FIXME
+					if debugEnabled() {
+						log.Println(err)
+					}
+					return // The TNC connection was closed (most likely).
 				}
 			}
 		}
